@@ -1,0 +1,373 @@
+//go:build verif
+
+package cron
+
+// Contracts for govc (contract-based deductive verification; see /verif/DESIGN.md).
+// This file holds only comments and is compiled only with -tags verif.
+
+// bitsOf(a, max, step): the bit set {a, a+step, a+2*step, ...} not beyond max ("min, min+step, ... not
+// beyond max", the documented meaning of a stepped range), as a recursive spec function over 64-bit vectors.
+//@ pure func bitsOf(a uint64, mx uint64, step uint64) uint64 = a > mx ? 0 : ((1 << a) | bitsOf(a + step, mx, step))
+
+//@ func getBits
+//@   tags C04 C07 C08
+//@   mode bv
+//@   requires min <= max && max <= 62 && step >= 1 && step <= 0x7fffffffffffffff
+//@   modifies nothing
+//@   ensures [C04.getbits.step] step != 1 ==> result == bitsOf(min, max, step)
+//@   ensures [C04.getbits.range] step == 1 ==> (forall i uint64 :: i < 64 ==> ((((result >> i) & 1) == 1) <==> (min <= i && i <= max)))
+//@   ensures [C04.getbits.nostar] (result >> 63) == 0
+//@   loop 0 invariant min <= i && i <= max + step && (bits | bitsOf(i, max, step)) == bitsOf(min, max, step)
+//@   loop 0 invariant (bits >> 63) == 0
+//@   loop 0 decreases int(max + step - i)
+//@   intview requires min <= max && max <= 62 && step >= 1 && step <= 0x7fffffffffffffff
+//@   intview ensures result == bitsOfI(min, max, step)
+
+// bitsOfI(min, max, step): the int-mode name of the set computed by getBits (bit-level meaning: bitsOf above).
+//@ pure func bitsOfI(a int, b int, c int) int
+
+//@ func all
+//@   tags C04 C07 C08
+//@   mode bv
+//@   requires r.min <= r.max && r.max <= 62
+//@   modifies nothing
+//@   ensures [C04.all.bits] forall i uint64 :: i < 64 ==> ((((result >> i) & 1) == 1) <==> ((r.min <= i && i <= r.max) || i == 63))
+//@   intview requires r.min <= r.max && r.max <= 62
+//@   intview ensures result == (bitsOfI(r.min, r.max, 1) | starBit)
+
+// ---- leaves of the parser ----
+
+//@ func mustParseInt
+//@   tags C04 C07 C08
+//@   modifies nothing
+//@   ensures [C04.int.accept] result1 == nil <==> (atoiOK(expr) && atoiVal(expr) >= 0)
+//@   ensures [C04.int.value] result1 == nil ==> result == atoiVal(expr)
+//@   ensures [C04.int.reject] result1 != nil ==> result == 0
+//@   ensures result <= 0x7fffffffffffffff
+
+//@ func parseIntOrName
+//@   tags C04 C07 C08
+//@   modifies nothing
+//@   ensures [C04.name.table] (names != nil && haskey(names, lower(expr))) ==> (result1 == nil && result == names[lower(expr)])
+//@   ensures [C04.name.int.accept] !(names != nil && haskey(names, lower(expr))) ==> (result1 == nil <==> (atoiOK(expr) && atoiVal(expr) >= 0))
+//@   ensures [C04.name.int.value] !(names != nil && haskey(names, lower(expr))) ==> (result1 == nil ==> result == atoiVal(expr))
+//@   ensures [C04.name.reject] result1 != nil ==> result == 0
+
+// ---- getRange: one term of a field, "number | number-number | * | ?" optionally followed by "/step" ----
+// The term is described through the pieces strings.Split produces (splitN/splitAt, see strings_time.spec):
+//   expr = range [ "/" stepPart(expr) ],  range = loPart(expr) [ "-" hiPart(expr) ];  nSlash / nHyph count the pieces.
+// val(x) below is written out as (haskey(r.names, lower(x)) ? r.names[lower(x)] : atoiVal(x)): a name of the field's
+// table (case-insensitive) or a non-negative decimal number.
+//@ pure func nSlash(e string) int = splitN(e, "/")
+//@ pure func stepPart(e string) string = splitAt(e, "/", 1)
+//@ pure func nHyph(e string) int = splitN(splitAt(e, "/", 0), "-")
+//@ pure func loPart(e string) string = splitAt(splitAt(e, "/", 0), "-", 0)
+//@ pure func hiPart(e string) string = splitAt(splitAt(e, "/", 0), "-", 1)
+//@ pure func isStar(e string) bool = loPart(e) == "*" || loPart(e) == "?"
+// step: absent => 1; present => a number >= 1 (zero and non-numeric steps are refused)
+//@ pure func stepOK(e string) bool = nSlash(e) == 1 || (nSlash(e) == 2 && atoiOK(stepPart(e)) && atoiVal(stepPart(e)) >= 1)
+//@ pure func stepVal(e string) int = nSlash(e) == 1 ? 1 : atoiVal(stepPart(e))
+
+//@ func getRange
+//@   tags C04 C07 C08
+//@   requires r.min <= r.max && r.max <= 62
+//@   modifies nothing
+//@   ensures [C04.range.star.whole] (isStar(expr) && result1 == nil) ==> nHyph(expr) == 1
+//@   ensures [C04.range.star.accept] (isStar(expr) && nHyph(expr) == 1) ==> (result1 == nil <==> stepOK(expr))
+//@   ensures [C04.range.star.value] (isStar(expr) && result1 == nil) ==>
+//@        result == (bitsOfI(r.min, r.max, stepVal(expr)) | (stepVal(expr) > 1 ? 0 : starBit))
+//@   ensures [C04.range.accept] !isStar(expr) ==> (result1 == nil <==> (
+//@        nHyph(expr) <= 2 && stepOK(expr)
+//@        && (haskey(r.names, lower(loPart(expr))) || (atoiOK(loPart(expr)) && atoiVal(loPart(expr)) >= 0))
+//@        && (nHyph(expr) == 2 ==> (haskey(r.names, lower(hiPart(expr))) || (atoiOK(hiPart(expr)) && atoiVal(hiPart(expr)) >= 0)))
+//@        && r.min <= (haskey(r.names, lower(loPart(expr))) ? r.names[lower(loPart(expr))] : atoiVal(loPart(expr)))
+//@        && (nHyph(expr) == 2 ? (haskey(r.names, lower(hiPart(expr))) ? r.names[lower(hiPart(expr))] : atoiVal(hiPart(expr)))
+//@                             : (nSlash(expr) == 2 ? r.max : (haskey(r.names, lower(loPart(expr))) ? r.names[lower(loPart(expr))] : atoiVal(loPart(expr))))) <= r.max
+//@        && (haskey(r.names, lower(loPart(expr))) ? r.names[lower(loPart(expr))] : atoiVal(loPart(expr)))
+//@            <= (nHyph(expr) == 2 ? (haskey(r.names, lower(hiPart(expr))) ? r.names[lower(hiPart(expr))] : atoiVal(hiPart(expr)))
+//@                             : (nSlash(expr) == 2 ? r.max : (haskey(r.names, lower(loPart(expr))) ? r.names[lower(loPart(expr))] : atoiVal(loPart(expr)))))))
+//@   ensures [C04.range.value] (!isStar(expr) && result1 == nil) ==> result == (bitsOfI(
+//@        (haskey(r.names, lower(loPart(expr))) ? r.names[lower(loPart(expr))] : atoiVal(loPart(expr))),
+//@        (nHyph(expr) == 2 ? (haskey(r.names, lower(hiPart(expr))) ? r.names[lower(hiPart(expr))] : atoiVal(hiPart(expr)))
+//@                          : (nSlash(expr) == 2 ? r.max : (haskey(r.names, lower(loPart(expr))) ? r.names[lower(loPart(expr))] : atoiVal(loPart(expr))))),
+//@        stepVal(expr)) | 0)
+//@   ensures [C04.range.reject] result1 != nil ==> result == 0
+//@   replay template crongetrange
+//@   replay val nh = splitN(splitAt(expr, "/", 0), "-")
+//@   replay val ns = splitN(expr, "/")
+//@   replay val qmark = splitAt(splitAt(expr, "/", 0), "-", 0) == "?"
+//@   replay val minv = r.min
+//@   replay val maxv = r.max
+
+// ---- getField: a comma-separated list of terms; the field's set is the union of the terms' sets ----
+// Ghosts: gn = number of terms, gv[k] / ge[k] = what getRange answered for term k, acc[k] = union of the first k terms.
+//@ func getField
+//@   tags C04 C07 C08
+//@   ghost gn int
+//@   ghost gv [int]int
+//@   ghost ge [int]iface
+//@   ghost acc [int]int
+//@   requires r.min <= r.max && r.max <= 62
+//@   modifies nothing
+//@   ensures [C04.field.union] result1 == nil ==> (result == acc[gn] && acc[0] == 0 && (forall k :: 0 <= k && k < gn ==> acc[k + 1] == (acc[k] | gv[k])))
+//@   ensures [C04.field.err] result1 == nil <==> (forall k :: 0 <= k && k < gn ==> ge[k] == nil)
+//@   at call FieldsFunc ghost gn = len(res0)
+//@   at call FieldsFunc ghost acc = update(acc, 0, 0)
+//@   at call getRange ghost gv = update(gv, rangeindex + 1, res0)
+//@   at call getRange ghost ge = update(ge, rangeindex + 1, res1)
+//@   at call getRange ghost acc = update(acc, rangeindex + 2, acc[rangeindex + 1] | res0)
+//@   loop 0 invariant -1 <= rangeindex && rangeindex < gn && gn == len(ranges) && bits == acc[rangeindex + 1] && acc[0] == 0
+//@   loop 0 invariant forall k :: 0 <= k && k <= rangeindex ==> (acc[k + 1] == (acc[k] | gv[k]) && ge[k] == nil)
+//@   loop 0 decreases len(ranges) - rangeindex
+
+//@ func getField$1
+//@   tags C07 C08
+//@   modifies nothing
+//@   ensures result <==> r == ','
+
+// ---- normalizeFields ----
+// hasPlace(o, i): the option set o includes the i-th field (Second Minute Hour Dom Month Dow).
+//@ pure func hasPlace(o uint64, i int) bool = i == 0 ? (o & 1) != 0 : (i == 1 ? (o & 4) != 0 : (i == 2 ? (o & 8) != 0 : (i == 3 ? (o & 16) != 0 : (i == 4 ? (o & 32) != 0 : (i == 5 && (o & 64) != 0)))))
+// rank(o, i): how many of the fields before the i-th are included in o (position of the i-th field in the input).
+//@ pure func rank(o uint64, i int) int = ((i > 0 && (o & 1) != 0) ? 1 : 0) + ((i > 1 && (o & 4) != 0) ? 1 : 0) + ((i > 2 && (o & 8) != 0) ? 1 : 0) + ((i > 3 && (o & 16) != 0) ? 1 : 0) + ((i > 4 && (o & 32) != 0) ? 1 : 0) + ((i > 5 && (o & 64) != 0) ? 1 : 0)
+// effOpt(o): an optional field is a field.
+//@ pure func effOpt(o uint64) uint64 = (o & 128) != 0 ? (((o & 2) != 0 ? (o | 1) : o) | 64) : ((o & 2) != 0 ? (o | 1) : o)
+//@ pure func nOpt(o uint64) int = ((o & 2) != 0 ? 1 : 0) + ((o & 128) != 0 ? 1 : 0)
+
+//@ func normalizeFields
+//@   tags C04 C07 C08
+//@   mode bv
+//@   requires len(places) == 6 && places[0] == 1 && places[1] == 4 && places[2] == 8 && places[3] == 16 && places[4] == 32 && places[5] == 64
+//@   requires len(defaults) == 6 && defaults[0] == "0" && defaults[1] == "0" && defaults[2] == "0" && defaults[3] == "*" && defaults[4] == "*" && defaults[5] == "*"
+//@   requires fields.base != defaults.base
+//@   modifies fields[len(fields):cap(fields)]
+//@   ensures [C04.norm.twoopt] nOpt(options) > 1 ==> result1 != nil
+//@   ensures [C04.norm.count] nOpt(options) <= 1 ==> (result1 == nil <==> (rank(effOpt(options), 6) - nOpt(options) <= len(fields) && len(fields) <= rank(effOpt(options), 6)))
+//@   ensures [C04.norm.six] result1 == nil ==> len(result) == 6
+//@   ensures [C04.norm.default] result1 == nil ==> (forall i :: 0 <= i && i < 6 && !hasPlace(effOpt(options), i) ==> result[i] == defaults[i])
+//@   ensures [C04.norm.given] (result1 == nil && len(fields) == rank(effOpt(options), 6)) ==> (forall i :: 0 <= i && i < 6 && hasPlace(effOpt(options), i) ==> result[i] == fields[rank(effOpt(options), i)])
+//@   ensures [C04.norm.optdow] (result1 == nil && len(fields) < rank(effOpt(options), 6) && (options & 128) != 0) ==>
+//@        (result[5] == "*" && (forall i :: 0 <= i && i < 5 && hasPlace(effOpt(options), i) ==> result[i] == fields[rank(effOpt(options), i)]))
+//@   ensures [C04.norm.optsec] (result1 == nil && len(fields) < rank(effOpt(options), 6) && (options & 2) != 0) ==>
+//@        (result[0] == "0" && (forall i :: 1 <= i && i < 6 && hasPlace(effOpt(options), i) ==> result[i] == fields[rank(effOpt(options), i) - 1]))
+//@   loop 0 invariant rangeindex == -1 || rangeindex == 0 || rangeindex == 1 || rangeindex == 2 || rangeindex == 3 || rangeindex == 4 || rangeindex == 5
+//@   loop 0 invariant max == 0 || max == 1 || max == 2 || max == 3 || max == 4 || max == 5 || max == 6
+//@   loop 0 invariant -1 <= rangeindex && rangeindex < 6 && int(max) == rank(effOpt(options), int(rangeindex) + 1)
+//@   loop 0 decreases 6 - int(rangeindex)
+//@   loop 1 invariant rangeindex == -1 || rangeindex == 0 || rangeindex == 1 || rangeindex == 2 || rangeindex == 3 || rangeindex == 4 || rangeindex == 5
+//@   loop 1 invariant nOpt(options) <= 1 && rank(effOpt(options), 6) - nOpt(options) <= len(old(fields)) && len(old(fields)) <= rank(effOpt(options), 6)
+//@   loop 1 invariant n == 0 || n == 1 || n == 2 || n == 3 || n == 4 || n == 5 || n == 6
+//@   loop 1 invariant -1 <= rangeindex && rangeindex < 6 && int(n) == rank(effOpt(options), int(rangeindex) + 1)
+//@   loop 1 invariant len(expandedFields) == 6 && fresh(expandedFields) && expandedFields.off == 0
+//@   loop 1 invariant (rangeindex < 0 || !hasPlace(effOpt(options), 0)) ==> expandedFields[0] == defaults[0]
+//@   loop 1 invariant (rangeindex < 1 || !hasPlace(effOpt(options), 1)) ==> expandedFields[1] == defaults[1]
+//@   loop 1 invariant (rangeindex < 2 || !hasPlace(effOpt(options), 2)) ==> expandedFields[2] == defaults[2]
+//@   loop 1 invariant (rangeindex < 3 || !hasPlace(effOpt(options), 3)) ==> expandedFields[3] == defaults[3]
+//@   loop 1 invariant (rangeindex < 4 || !hasPlace(effOpt(options), 4)) ==> expandedFields[4] == defaults[4]
+//@   loop 1 invariant (rangeindex < 5 || !hasPlace(effOpt(options), 5)) ==> expandedFields[5] == defaults[5]
+//@   loop 1 invariant len(fields) == rank(effOpt(options), 6)
+//@   loop 1 invariant (rangeindex >= 0 && hasPlace(effOpt(options), 0)) ==> expandedFields[0] == fields[rank(effOpt(options), 0)]
+//@   loop 1 invariant (rangeindex >= 1 && hasPlace(effOpt(options), 1)) ==> expandedFields[1] == fields[rank(effOpt(options), 1)]
+//@   loop 1 invariant (rangeindex >= 2 && hasPlace(effOpt(options), 2)) ==> expandedFields[2] == fields[rank(effOpt(options), 2)]
+//@   loop 1 invariant (rangeindex >= 3 && hasPlace(effOpt(options), 3)) ==> expandedFields[3] == fields[rank(effOpt(options), 3)]
+//@   loop 1 invariant (rangeindex >= 4 && hasPlace(effOpt(options), 4)) ==> expandedFields[4] == fields[rank(effOpt(options), 4)]
+//@   loop 1 invariant (rangeindex >= 5 && hasPlace(effOpt(options), 5)) ==> expandedFields[5] == fields[rank(effOpt(options), 5)]
+//@   loop 1 invariant len(old(fields)) == rank(effOpt(options), 6) ==> fields == old(fields)
+//@   loop 1 invariant (len(old(fields)) < rank(effOpt(options), 6) && (options & 128) != 0) ==> fields[len(old(fields))] == "*"
+//@   loop 1 invariant (len(old(fields)) < rank(effOpt(options), 6) && (options & 128) == 0) ==> fields[0] == "0"
+//@   loop 1 invariant (len(old(fields)) < rank(effOpt(options), 6) && (options & 128) != 0 && 0 < len(old(fields))) ==> fields[0] == old(fields)[0]
+//@   loop 1 invariant (len(old(fields)) < rank(effOpt(options), 6) && (options & 128) != 0 && 1 < len(old(fields))) ==> fields[1] == old(fields)[1]
+//@   loop 1 invariant (len(old(fields)) < rank(effOpt(options), 6) && (options & 128) != 0 && 2 < len(old(fields))) ==> fields[2] == old(fields)[2]
+//@   loop 1 invariant (len(old(fields)) < rank(effOpt(options), 6) && (options & 128) != 0 && 3 < len(old(fields))) ==> fields[3] == old(fields)[3]
+//@   loop 1 invariant (len(old(fields)) < rank(effOpt(options), 6) && (options & 128) != 0 && 4 < len(old(fields))) ==> fields[4] == old(fields)[4]
+//@   loop 1 invariant (len(old(fields)) < rank(effOpt(options), 6) && (options & 128) == 0 && 0 < len(old(fields))) ==> fields[1] == old(fields)[0]
+//@   loop 1 invariant (len(old(fields)) < rank(effOpt(options), 6) && (options & 128) == 0 && 1 < len(old(fields))) ==> fields[2] == old(fields)[1]
+//@   loop 1 invariant (len(old(fields)) < rank(effOpt(options), 6) && (options & 128) == 0 && 2 < len(old(fields))) ==> fields[3] == old(fields)[2]
+//@   loop 1 invariant (len(old(fields)) < rank(effOpt(options), 6) && (options & 128) == 0 && 3 < len(old(fields))) ==> fields[4] == old(fields)[3]
+//@   loop 1 invariant (len(old(fields)) < rank(effOpt(options), 6) && (options & 128) == 0 && 4 < len(old(fields))) ==> fields[5] == old(fields)[4]
+//@   loop 1 decreases 6 - int(rangeindex)
+//@   intview requires len(places) == 6 && places[0] == 1 && places[1] == 4 && places[2] == 8 && places[3] == 16 && places[4] == 32 && places[5] == 64
+//@   intview requires len(defaults) == 6 && defaults[0] == "0" && defaults[1] == "0" && defaults[2] == "0" && defaults[3] == "*" && defaults[4] == "*" && defaults[5] == "*"
+//@   intview requires fields.base != defaults.base
+//@   intview ensures result1 == nil ==> len(result) == 6
+
+// ---- constant-delay schedules ----
+
+//@ func Every
+//@   tags C04 C07 C08
+//@   modifies nothing
+//@   ensures [C04.every.delay] result.Delay == ((duration >= 1000000000 ? duration : 1000000000) / 1000000000) * 1000000000
+//@   ensures [C04.every.atleast] result.Delay >= 1000000000
+
+//@ func (ConstantDelaySchedule).Next
+//@   tags C04 C07 C08
+//@   requires schedule.Delay >= 0        // a delay (Every produces >= 1s); a huge negative Delay would overflow the subtraction
+//@   modifies nothing
+//@   ensures [C04.delay.next] unixNano(result) == unixNano(t) - unixNano(t) % 1000000000 + schedule.Delay
+
+// ---- matching ----
+
+//@ func dayMatches
+//@   tags C04 C07 C08
+//@   mode bv
+//@   requires s != nil
+//@   modifies nothing
+//@   ensures [C04.day.star] ((s.Dom >> 63) == 1 || (s.Dow >> 63) == 1) ==>
+//@        (result <==> ((((s.Dom >> call_Day_0_result) & 1) == 1) && (((s.Dow >> call_Weekday_0_result) & 1) == 1)))
+//@   ensures [C04.day.nostar] ((s.Dom >> 63) == 0 && (s.Dow >> 63) == 0) ==>
+//@        (result <==> ((((s.Dom >> call_Day_0_result) & 1) == 1) || (((s.Dow >> call_Weekday_0_result) & 1) == 1)))
+//@   ensures 1 <= call_Day_0_result && call_Day_0_result <= 31 && 0 <= call_Weekday_0_result && call_Weekday_0_result <= 6
+//@   intview requires s != nil
+
+// ---- package tables (written by the package initializer only; every other function has `modifies nothing`) ----
+// The initializer either finds the package already initialized (nothing touched) or establishes the documented tables.
+//@ func init
+//@   tags C04 C08
+//@   mode bv
+//@   ensures [C04.tables.places] (places == old(places)) || (len(places) == 6 && places[0] == 1 && places[1] == 4 && places[2] == 8 && places[3] == 16 && places[4] == 32 && places[5] == 64)
+//@   ensures [C04.tables.defaults] (defaults == old(defaults)) || (len(defaults) == 6 && defaults[0] == "0" && defaults[1] == "0" && defaults[2] == "0" && defaults[3] == "*" && defaults[4] == "*" && defaults[5] == "*")
+//@   ensures [C04.tables.bounds] (places == old(places)) || (seconds.min == 0 && seconds.max == 59 && seconds.names == nil && minutes.min == 0 && minutes.max == 59 && minutes.names == nil
+//@        && hours.min == 0 && hours.max == 23 && hours.names == nil && dom.min == 1 && dom.max == 31 && dom.names == nil
+//@        && months.min == 1 && months.max == 12 && dow.min == 0 && dow.max == 6)
+//@   ensures [C04.tables.months] (places == old(places)) || (len(months.names) == 12 && haskey(months.names, "jan") && months.names["jan"] == 1 && haskey(months.names, "feb") && months.names["feb"] == 2 && haskey(months.names, "mar") && months.names["mar"] == 3
+//@        && haskey(months.names, "apr") && months.names["apr"] == 4 && haskey(months.names, "may") && months.names["may"] == 5 && haskey(months.names, "jun") && months.names["jun"] == 6
+//@        && haskey(months.names, "jul") && months.names["jul"] == 7 && haskey(months.names, "aug") && months.names["aug"] == 8 && haskey(months.names, "sep") && months.names["sep"] == 9
+//@        && haskey(months.names, "oct") && months.names["oct"] == 10 && haskey(months.names, "nov") && months.names["nov"] == 11 && haskey(months.names, "dec") && months.names["dec"] == 12)
+//@   ensures [C04.tables.dow] (places == old(places)) || (len(dow.names) == 7 && haskey(dow.names, "sun") && dow.names["sun"] == 0 && haskey(dow.names, "mon") && dow.names["mon"] == 1 && haskey(dow.names, "tue") && dow.names["tue"] == 2 && haskey(dow.names, "wed") && dow.names["wed"] == 3
+//@        && haskey(dow.names, "thu") && dow.names["thu"] == 4 && haskey(dow.names, "fri") && dow.names["fri"] == 5 && haskey(dow.names, "sat") && dow.names["sat"] == 6)
+//@   ensures [C04.tables.parser] (places == old(places)) || standardParser.options == 380    // Minute | Hour | Dom | Month | Dow | Descriptor
+
+// ---- parser construction ----
+
+//@ func NewParser
+//@   tags C04 C07 C08
+//@   mode bv
+//@   modifies nothing
+//@   panics when (options & SecondOptional) != 0 && (options & DowOptional) != 0      // documented: two optionals cannot be told apart
+//@   ensures [C04.newparser.options] result.options == options
+//@   intview ensures result.options == options
+
+// ---- descriptors ----
+// isEvery(d): d starts with "@every ".
+//@ pure func isEvery(d string) bool = len(d) >= 7 && d[0] == '@' && d[1] == 'e' && d[2] == 'v' && d[3] == 'e' && d[4] == 'r' && d[5] == 'y' && d[6] == ' '
+//@ pure func isNamedDescriptor(d string) bool = d == "@yearly" || d == "@annually" || d == "@monthly" || d == "@weekly" || d == "@daily" || d == "@midnight" || d == "@hourly"
+
+// Documented equivalents: @yearly = "0 0 0 1 1 *", @monthly = "0 0 0 1 * *", @weekly = "0 0 0 * * 0", @daily = "0 0 0 * * *",
+// @hourly = "0 0 * * * *" (six-field form; "*" = every value of the field plus the star bit).
+//@ func parseDescriptor
+//@   tags C04 C07 C08
+//@   mode bv
+//@   ghost gdurerr iface                       // what time.ParseDuration said about the text after "@every "
+//@   at call ParseDuration ghost gdurerr = res1
+//@   requires seconds.min == 0 && minutes.min == 0 && hours.min == 0 && hours.max == 23 && dom.min == 1 && dom.max == 31 && months.min == 1 && months.max == 12 && dow.min == 0 && dow.max == 6
+//@   modifies nothing
+//@   ensures [C04.desc.yearly] (descriptor == "@yearly" || descriptor == "@annually") ==> (result1 == nil && typeis(result, "*github.com/dapr/kit/cron.SpecSchedule") && deref(result, "github.com/dapr/kit/cron.SpecSchedule").Location == loc && deref(result, "github.com/dapr/kit/cron.SpecSchedule").Second == 1 && deref(result, "github.com/dapr/kit/cron.SpecSchedule").Minute == 1 && deref(result, "github.com/dapr/kit/cron.SpecSchedule").Hour == 1 && deref(result, "github.com/dapr/kit/cron.SpecSchedule").Dom == 2 && deref(result, "github.com/dapr/kit/cron.SpecSchedule").Month == 2
+//@        && (forall i uint64 :: i < 64 ==> ((((deref(result, "github.com/dapr/kit/cron.SpecSchedule").Dow >> i) & 1) == 1) <==> ((0 <= i && i <= 6) || i == 63))))
+//@   ensures [C04.desc.monthly] descriptor == "@monthly" ==> (result1 == nil && typeis(result, "*github.com/dapr/kit/cron.SpecSchedule") && deref(result, "github.com/dapr/kit/cron.SpecSchedule").Location == loc && deref(result, "github.com/dapr/kit/cron.SpecSchedule").Second == 1 && deref(result, "github.com/dapr/kit/cron.SpecSchedule").Minute == 1 && deref(result, "github.com/dapr/kit/cron.SpecSchedule").Hour == 1 && deref(result, "github.com/dapr/kit/cron.SpecSchedule").Dom == 2
+//@        && (forall i uint64 :: i < 64 ==> ((((deref(result, "github.com/dapr/kit/cron.SpecSchedule").Month >> i) & 1) == 1) <==> ((1 <= i && i <= 12) || i == 63)))
+//@        && (forall i uint64 :: i < 64 ==> ((((deref(result, "github.com/dapr/kit/cron.SpecSchedule").Dow >> i) & 1) == 1) <==> ((0 <= i && i <= 6) || i == 63))))
+//@   ensures [C04.desc.weekly] descriptor == "@weekly" ==> (result1 == nil && typeis(result, "*github.com/dapr/kit/cron.SpecSchedule") && deref(result, "github.com/dapr/kit/cron.SpecSchedule").Location == loc && deref(result, "github.com/dapr/kit/cron.SpecSchedule").Second == 1 && deref(result, "github.com/dapr/kit/cron.SpecSchedule").Minute == 1 && deref(result, "github.com/dapr/kit/cron.SpecSchedule").Hour == 1 && deref(result, "github.com/dapr/kit/cron.SpecSchedule").Dow == 1
+//@        && (forall i uint64 :: i < 64 ==> ((((deref(result, "github.com/dapr/kit/cron.SpecSchedule").Dom >> i) & 1) == 1) <==> ((1 <= i && i <= 31) || i == 63)))
+//@        && (forall i uint64 :: i < 64 ==> ((((deref(result, "github.com/dapr/kit/cron.SpecSchedule").Month >> i) & 1) == 1) <==> ((1 <= i && i <= 12) || i == 63))))
+//@   ensures [C04.desc.daily] (descriptor == "@daily" || descriptor == "@midnight") ==> (result1 == nil && typeis(result, "*github.com/dapr/kit/cron.SpecSchedule") && deref(result, "github.com/dapr/kit/cron.SpecSchedule").Location == loc && deref(result, "github.com/dapr/kit/cron.SpecSchedule").Second == 1 && deref(result, "github.com/dapr/kit/cron.SpecSchedule").Minute == 1 && deref(result, "github.com/dapr/kit/cron.SpecSchedule").Hour == 1
+//@        && (forall i uint64 :: i < 64 ==> ((((deref(result, "github.com/dapr/kit/cron.SpecSchedule").Dom >> i) & 1) == 1) <==> ((1 <= i && i <= 31) || i == 63)))
+//@        && (forall i uint64 :: i < 64 ==> ((((deref(result, "github.com/dapr/kit/cron.SpecSchedule").Month >> i) & 1) == 1) <==> ((1 <= i && i <= 12) || i == 63)))
+//@        && (forall i uint64 :: i < 64 ==> ((((deref(result, "github.com/dapr/kit/cron.SpecSchedule").Dow >> i) & 1) == 1) <==> ((0 <= i && i <= 6) || i == 63))))
+//@   ensures [C04.desc.hourly] descriptor == "@hourly" ==> (result1 == nil && typeis(result, "*github.com/dapr/kit/cron.SpecSchedule") && deref(result, "github.com/dapr/kit/cron.SpecSchedule").Location == loc && deref(result, "github.com/dapr/kit/cron.SpecSchedule").Second == 1 && deref(result, "github.com/dapr/kit/cron.SpecSchedule").Minute == 1
+//@        && (forall i uint64 :: i < 64 ==> ((((deref(result, "github.com/dapr/kit/cron.SpecSchedule").Hour >> i) & 1) == 1) <==> ((0 <= i && i <= 23) || i == 63)))
+//@        && (forall i uint64 :: i < 64 ==> ((((deref(result, "github.com/dapr/kit/cron.SpecSchedule").Dom >> i) & 1) == 1) <==> ((1 <= i && i <= 31) || i == 63)))
+//@        && (forall i uint64 :: i < 64 ==> ((((deref(result, "github.com/dapr/kit/cron.SpecSchedule").Month >> i) & 1) == 1) <==> ((1 <= i && i <= 12) || i == 63)))
+//@        && (forall i uint64 :: i < 64 ==> ((((deref(result, "github.com/dapr/kit/cron.SpecSchedule").Dow >> i) & 1) == 1) <==> ((0 <= i && i <= 6) || i == 63))))
+//@   ensures [C04.desc.every] (!isNamedDescriptor(descriptor) && isEvery(descriptor)) ==> ((result1 == nil <==> gdurerr == nil)
+//@        && (result1 == nil ==> typeis(result, "github.com/dapr/kit/cron.ConstantDelaySchedule")))
+//@   ensures [C04.desc.unknown] (!isNamedDescriptor(descriptor) && !isEvery(descriptor)) ==> result1 != nil
+//@   ensures [C04.desc.err] result1 != nil ==> result == nil
+//@   ensures [C04.desc.ok] result1 == nil ==> result != nil
+//@   intview requires seconds.min == 0 && minutes.min == 0 && hours.min == 0 && hours.max == 23 && dom.min == 1 && dom.max == 31 && months.min == 1 && months.max == 12 && dow.min == 0 && dow.max == 6
+//@   intview ensures result1 != nil ==> result == nil
+//@   intview ensures result1 == nil ==> result != nil
+//@   intview ensures result1 == nil ==> (isNamedDescriptor(descriptor) || isEvery(descriptor))
+//@   intview ensures (result1 == nil && isNamedDescriptor(descriptor)) ==> (typeis(result, "*github.com/dapr/kit/cron.SpecSchedule") && deref(result, "github.com/dapr/kit/cron.SpecSchedule").Location == loc)
+
+// ---- Parse ----
+// Package invariant (established by the package initializer, see func init; preserved because every function
+// below has `modifies nothing`): the tables places / defaults / bounds hold their documented values.
+
+// the field closure of Parse: once an error has been recorded nothing is parsed any more and the error is kept
+//@ func (Parser).Parse$1
+//@   tags C04 C07 C08
+//@   requires r.min <= r.max && r.max <= 62
+//@   modifies err
+//@   ensures [C04.parse.field.skip] old(err) != nil ==> (result == 0 && err == old(err))
+
+//@ pure func isTZ(s string) bool = (len(s) >= 3 && s[0] == 'T' && s[1] == 'Z' && s[2] == '=')
+//@        || (len(s) >= 8 && s[0] == 'C' && s[1] == 'R' && s[2] == 'O' && s[3] == 'N' && s[4] == '_' && s[5] == 'T' && s[6] == 'Z' && s[7] == '=')
+
+// Ghosts: gzone = the zone name handed to time.LoadLocation, gloc = the location used, grest = the text after the zone prefix,
+// gnerr = normalizeFields' verdict on the field count, gf0..gf5 = the six field sets in order, gferr = the fields' verdict.
+//@ func (Parser).Parse
+//@   tags C04 C07 C08
+//@   ghost gzone string
+//@   ghost gloc int
+//@   ghost grest string
+//@   ghost gnerr iface
+//@   ghost gf0 int
+//@   ghost gf1 int
+//@   ghost gf2 int
+//@   ghost gf3 int
+//@   ghost gf4 int
+//@   ghost gf5 int
+//@   requires len(places) == 6 && places[0] == 1 && places[1] == 4 && places[2] == 8 && places[3] == 16 && places[4] == 32 && places[5] == 64
+//@   requires len(defaults) == 6 && defaults[0] == "0" && defaults[1] == "0" && defaults[2] == "0" && defaults[3] == "*" && defaults[4] == "*" && defaults[5] == "*"
+//@   requires seconds.min == 0 && seconds.max == 59 && minutes.min == 0 && minutes.max == 59 && hours.min == 0 && hours.max == 23 && dom.min == 1 && dom.max == 31 && months.min == 1 && months.max == 12 && dow.min == 0 && dow.max == 6
+//@   requires time.Local != nil
+//@   modifies nothing
+//@   ensures [C04.parse.empty] len(spec) == 0 ==> result1 != nil
+//@   ensures [C04.parse.err] result1 != nil ==> result == nil
+//@   ensures [C04.parse.ok] result1 == nil ==> result != nil
+//@   ensures [C04.parse.tz.unknown] (isTZ(spec) && !tzKnown(gzone)) ==> result1 != nil
+//@   ensures [C04.parse.descriptor.off] ((isTZ(spec) ? grest : spec) == grest && len(grest) >= 1 && grest[0] == '@' && (p.options & Descriptor) == 0) ==> result1 != nil
+//@   ensures [C04.parse.descriptor.unknown] (len(grest) >= 1 && grest[0] == '@' && !isNamedDescriptor(grest) && !isEvery(grest)) ==> result1 != nil
+//@   ensures [C04.parse.count] (len(spec) > 0 && !(len(grest) >= 1 && grest[0] == '@') && gnerr != nil) ==> result1 != nil
+//@   ensures [C04.parse.fields] (result1 == nil && !(len(grest) >= 1 && grest[0] == '@')) ==> (typeis(result, "*github.com/dapr/kit/cron.SpecSchedule")
+//@        && deref(result, "github.com/dapr/kit/cron.SpecSchedule").Second == gf0 && deref(result, "github.com/dapr/kit/cron.SpecSchedule").Minute == gf1 && deref(result, "github.com/dapr/kit/cron.SpecSchedule").Hour == gf2
+//@        && deref(result, "github.com/dapr/kit/cron.SpecSchedule").Dom == gf3 && deref(result, "github.com/dapr/kit/cron.SpecSchedule").Month == gf4 && deref(result, "github.com/dapr/kit/cron.SpecSchedule").Dow == gf5
+//@        && deref(result, "github.com/dapr/kit/cron.SpecSchedule").Location == gloc && gloc != nil)
+//@   ensures [C04.parse.loc.default] (result1 == nil && !isTZ(spec)) ==> gloc == time.Local
+//@   at call HasPrefix#0 ghost gloc = loc
+//@   at call HasPrefix#0 ghost grest = spec
+//@   at call LoadLocation ghost gzone = arg0
+//@   at call LoadLocation ghost gloc = res0
+//@   at call TrimSpace ghost grest = res0
+//@   at call normalizeFields ghost gnerr = res1
+//@   at call Parse$1#0 ghost gf0 = res0
+//@   at call Parse$1#1 ghost gf1 = res0
+//@   at call Parse$1#2 ghost gf2 = res0
+//@   at call Parse$1#3 ghost gf3 = res0
+//@   at call Parse$1#4 ghost gf4 = res0
+//@   at call Parse$1#5 ghost gf5 = res0
+//@   replay template cronparse
+//@   replay val options = p.options
+//@   replay val speclen = len(spec)
+//@   replay val hastz = call_HasPrefix_0_result
+//@   replay val hascrontz = call_HasPrefix_1_result
+//@   replay val spaceidx = call_Index_0_result
+//@   replay val eqidx = call_Index_1_result
+
+//@ func ParseStandard
+//@   tags C04 C07 C08
+//@   requires len(places) == 6 && places[0] == 1 && places[1] == 4 && places[2] == 8 && places[3] == 16 && places[4] == 32 && places[5] == 64
+//@   requires len(defaults) == 6 && defaults[0] == "0" && defaults[1] == "0" && defaults[2] == "0" && defaults[3] == "*" && defaults[4] == "*" && defaults[5] == "*"
+//@   requires seconds.min == 0 && seconds.max == 59 && minutes.min == 0 && minutes.max == 59 && hours.min == 0 && hours.max == 23 && dom.min == 1 && dom.max == 31 && months.min == 1 && months.max == 12 && dow.min == 0 && dow.max == 6
+//@   requires time.Local != nil && standardParser.options == 380
+//@   modifies nothing
+//@   ensures [C04.parse.err] result1 != nil ==> result == nil
+//@   ensures [C04.parse.ok] result1 == nil ==> result != nil
+//@   ensures [C04.parse.empty] len(standardSpec) == 0 ==> result1 != nil
+
+// ---- SpecSchedule.Next: safety only (no panic); minimality of the calendar search is not attempted here ----
+// A schedule built by Parse / parseDescriptor always carries a non-nil Location (time.In and time.Date panic on nil).
+//@ func (*SpecSchedule).Next
+//@   tags C07 C08
+//@   requires s != nil && s.Location != nil
+//@   modifies nothing
